@@ -5,7 +5,7 @@
 (*   RunStart  cfg + outcome ("run" | "refused") + resolved nb / nA        *)
 (*   Sampled   k, order                                                    *)
 (*   Maximized k, memoryless, m, consistent, burn_flag, steps, same_stats, *)
-(*             noise_rule, probs_rule                                       *)
+(*             noise_rule, probs_rule, mix_rule                             *)
 (*   Cooled    k, tnum, tden, close, is_one                                *)
 (*   Logged    k, emitted, mutated, rng_moved                              *)
 (*   RunEnd    outcome ("done" | "crashed"), pop_at_mode                   *)
@@ -59,7 +59,7 @@ TMaximized == /\ IsEvent("Maximized") /\ Maximize /\ Ev.k = k
               \* the noise level is the RMS residual over observed entries (globally / per feature), the mixture
               \* probabilities are the mean cluster responsibilities and sum to one ("na" when the model has neither)
               \* (judged by the check of C04 only: IOEnv.CLOSED_FORMS = "1")
-              /\ (IOEnv.CLOSED_FORMS = "1") => (Ev.noise_rule \in {"ok", "na"} /\ Ev.probs_rule \in {"ok", "na"})
+              /\ (IOEnv.CLOSED_FORMS = "1") => (Ev.noise_rule \in {"ok", "na"} /\ Ev.probs_rule \in {"ok", "na"} /\ Ev.mix_rule \in {"ok", "na"})
               /\ BatchOK([a \in 1..Len(Ev.steps) |-> Spec2(Ev.steps[a])])
 
 TCooled == /\ IsEvent("Cooled") /\ Cool /\ st' = "run" /\ Ev.k = k
